@@ -43,6 +43,7 @@ type reqSpec struct {
 	// identity headers sent BY THE CLIENT (Auth sets them for the handlers; it never removes them)
 	SpoofId    string
 	SpoofAdmin bool
+	Body       bool // a non-empty body that the declared / signed x-amz-content-sha256 does not describe
 }
 
 type authSpec struct {
@@ -160,7 +161,12 @@ func build(s reqSpec, a authSpec, now time.Time) *http.Request {
 		r.Header.Set("S3-Is-Admin", "true")
 	}
 	if a.Damage == "expired" && (a.Mech == "v4h" || a.Mech == "v2h") {
-		now = now.Add(-48 * time.Hour) // a header-signed request with a two days old date
+		// a header-signed request whose date is two days old, or two days in the future
+		if a.Tamper == 0 {
+			now = now.Add(-48 * time.Hour)
+		} else {
+			now = now.Add(48 * time.Hour)
+		}
 	}
 	amzDate := now.UTC().Format("20060102T150405Z")
 	day := now.UTC().Format("20060102")
